@@ -121,8 +121,22 @@ fn sentinel(g: &Grammar, slot: &ParamSlot, k: usize, ver: Ver) -> (Tok, String) 
             (Tok::word(TK::Ident, &v), format!("\"{v}\""))
         }
         PType::Str => {
-            let v = format!("zzS {k}");
-            (Tok::string(&v, format!("\"{v}\"")), format!("\"{v}\""))
+            // every second string begins and ends with a quote character, spelled in one of the two
+            // escape forms of the standard
+            match k % 4 {
+                1 => {
+                    let v = format!("\"zzS {k}\"");
+                    (Tok::string(&v, format!("\"\"\"zzS {k}\"\"\"")), format!("{v:?}"))
+                }
+                3 => {
+                    let v = format!("\"zzS {k}\"");
+                    (Tok::string(&v, format!("\"\\\"zzS {k}\\\"\"")), format!("{v:?}"))
+                }
+                _ => {
+                    let v = format!("zzS {k}");
+                    (Tok::string(&v, format!("\"{v}\"")), format!("\"{v}\""))
+                }
+            }
         }
         PType::Int { .. } => {
             let v = 11 + k as i128;
